@@ -343,6 +343,8 @@ func coveringDesigns() []*builtDesign {
 		add(s2, methodSpec{Name: "from_api", Required: false})                                                  // OAuth2 token in the implicit Authorization header
 		add(s2, methodSpec{Name: "keyauth", Own: []dg.Requirement{{Schemes: []string{"key"}}}, Required: true}) // API key in the implicit Authorization header
 		add(s2, methodSpec{Name: "open", NoSec: true})
+		// inline body listing one credential, the other one left to the implicit Authorization header
+		add(s2, methodSpec{Name: "inline_implicit", Own: []dg.Requirement{{Schemes: []string{"key"}}, {Schemes: []string{"oa"}}}, Locs: map[string]string{attrAToken: "inline-body"}})
 		d.Services = []*dg.Service{s, s2}
 		out = append(out, bd)
 	}
